@@ -172,7 +172,10 @@ INT_DTYPES = {("g", "int"), ("g", "jax.numpy.int32"), ("g", "jax.numpy.int64"), 
 
 class Normalizer:
     def __init__(self, builder: Builder | None = None, keep_stop_gradient: bool = False,
-                 erase_error_if: bool = True, ite_poly: bool = False, bool_terms=(), int_terms=()):
+                 erase_error_if: bool = True, ite_poly: bool = False, bool_terms=(), int_terms=(), total_order: bool = False,
+                 minmax: bool = False):
+        self.total_order = total_order  # a <= b is not(b < a): valid when no operand is NaN (reference comparisons)
+        self.minmax = minmax  # ite(a < b, a, b) = minimum(a, b); clip(x, lo, hi) = minimum(maximum(x, lo), hi)
         self.int_terms = set(int_terms)  # canonical atoms known to be integer-valued (from annotations)
         self.ite_poly = ite_poly  # Ite(c,a,b) = c*a + (1-c)*b; sound for finite a, b only
         self.bool_terms = set(bool_terms)  # canonical terms known to be Boolean-valued (from annotations)
@@ -243,13 +246,17 @@ class Normalizer:
             if op == "UAdd":
                 return self.poly(n[2])
             if op in ("Invert", "Not"):
-                return patom(self.boolean(n))
+                return self.boolval(n)
             return patom(("un", op, self.canon(n[2])))
         if k == "boolop":
-            return patom(self.boolean(n))
+            return self.boolval(n)
         if k == "cmp":
-            return patom(self.boolean(n))
+            return self.boolval(n)
         if k == "ite":
+            if self.minmax:
+                r = self.ite(n[1], n[2], n[3])
+                if isinstance(r, tuple) and r and r[0] == "call" and r[1] in ("jax.numpy.minimum", "jax.numpy.maximum"):
+                    return self.minmax_term(r[1].rsplit(".", 1)[1], r[2][0], r[2][1])
             if self.ite_poly:
                 c = self.boolean(n[1])
                 if c == KTRUE:
@@ -335,7 +342,7 @@ class Normalizer:
                 return r
             return patom(("pow", freeze(self.poly(a)), freeze(pb)))
         if op in ("BitAnd", "BitOr", "BitXor"):
-            return patom(self.boolean(("bin", op, a, b)))
+            return self.boolval(("bin", op, a, b))
         return patom(("bin", op, self.canon(a), self.canon(b)))
 
     def inv(self, p) -> dict:
@@ -385,6 +392,8 @@ class Normalizer:
                     elif op == "NotIn":
                         op, neg = "In", True
                     ca, cb = self.canon(a), self.canon(b)
+                    if self.total_order and op == "LtE":
+                        op, ca, cb, neg = "Lt", cb, ca, not neg
                     if op in ("Eq", "Is") and _key(cb) < _key(ca):
                         ca, cb = cb, ca
                     at = ("cmp", op, ca, cb)
@@ -393,6 +402,8 @@ class Normalizer:
                 if k == "call":
                     f = x[1]
                     fname = f[1] if isinstance(f, tuple) and f[0] == "global" else None
+                    if fname == "bool" and len(x[2]) == 1 and not x[3]:
+                        return build(x[2][0])  # bool(<Boolean expression>) is that expression
                     short = fname.split(".")[-1] if fname and fname.startswith(NP) else None
                     if short in BINFUN and len(x[2]) == 2 and not x[3]:
                         o = BINFUN[short]
@@ -492,6 +503,16 @@ class Normalizer:
             return atoms_sorted[0]
         return ("B", tuple(atoms_sorted), table)
 
+    def boolval(self, n) -> dict:
+        c = self.boolean(n)
+        if self.ite_poly:
+            if c == KTRUE:
+                return pconst(1)
+            if c == KFALSE:
+                return {}
+            return self.boolpoly(c)
+        return patom(c)
+
     def boolpoly(self, c) -> dict:
         """0/1-valued polynomial of a canonical Boolean term over idempotent atoms (multilinear form)."""
         if not (isinstance(c, tuple) and c and c[0] == "B"):
@@ -509,7 +530,40 @@ class Normalizer:
             res = padd(res, term)
         return res
 
+    def minmax_term(self, short: str, ca, cb) -> dict:
+        """minimum/maximum of two canonical terms, with the nested form recognised as clip3(x, lo, hi)."""
+        xs = sorted((ca, cb), key=_key)
+        if xs[0] == xs[1]:
+            return thaw(xs[0])
+        fname_j = "jax.numpy." + short
+        if self.minmax:
+            other = "jax.numpy.maximum" if short == "minimum" else "jax.numpy.minimum"
+            for i in (0, 1):
+                inner, outer = xs[i], xs[1 - i]
+                if isinstance(inner, tuple) and inner and inner[0] == "call" and inner[1] == other and len(inner[2]) == 2:
+                    trio = [inner[2][0], inner[2][1], outer]
+                    var = [t for t in trio if _depends_on_input(t)]
+                    if len(var) == 1 and var[0] in inner[2]:
+                        x = var[0]
+                        b_in = inner[2][1] if inner[2][0] == x else inner[2][0]
+                        lo_, hi_ = (b_in, outer) if short == "minimum" else (outer, b_in)
+                        return patom(("call", "clip3", (x, lo_, hi_), ()))
+        return patom(("call", fname_j, tuple(xs), ()))
+
     def ite(self, c, a, b):
+        if self.minmax:
+            cc0 = self.boolean(c)
+            ca0, cb0 = self.canon(a), self.canon(b)
+            neg = False
+            t = cc0
+            if isinstance(t, tuple) and t and t[0] == "B" and len(t[1]) == 1 and t[2] == 0b01:
+                t, neg = t[1][0], True
+            if isinstance(t, tuple) and t and t[0] == "cmp" and t[1] in ("Lt", "LtE"):
+                lo_, hi_ = t[2], t[3]  # lo_ < hi_
+                x, y = (cb0, ca0) if neg else (ca0, cb0)  # value when lo_<hi_ is x, else y
+                if {x, y} == {lo_, hi_}:
+                    name = "jax.numpy.minimum" if x == lo_ else "jax.numpy.maximum"
+                    return ("call", name, tuple(sorted((lo_, hi_), key=_key)), ())
         cc = self.boolean(c)
         nc = self.boolean(("un", "Invert", c))
         ca, cb = self.canon(a), self.canon(b)
@@ -558,10 +612,29 @@ class Normalizer:
                 return pmul(p, p)
             if short == "reciprocal" and len(args) == 1:
                 return self.inv(self.poly(args[0]))
+            if short == "clip" and self.minmax:
+                names = ["x", "min", "max"]
+                b_ = dict(zip(names, args))
+                b_.update({KW_ALIASES["jax.numpy.clip"].get(k_, k_): v for k_, v in kw.items()})
+                if set(b_) == {"x", "min", "max"}:
+                    inner = freeze(self.minmax_term("maximum", self.canon(b_["x"]), self.canon(b_["min"])))
+                    return self.minmax_term("minimum", inner, self.canon(b_["max"]))
             if short in AC_FUN and len(args) == 2 and not kw:
-                xs = sorted((self.canon(args[0]), self.canon(args[1])), key=_key)
-                if xs[0] == xs[1]:
-                    return thaw(xs[0])
+                return self.minmax_term(short, self.canon(args[0]), self.canon(args[1]))
+            if False:
+                xs = []
+                if self.minmax:
+                    other = "jax.numpy.maximum" if short == "minimum" else "jax.numpy.minimum"
+                    for i in (0, 1):
+                        inner, outer = xs[i], xs[1 - i]
+                        if isinstance(inner, tuple) and inner and inner[0] == "call" and inner[1] == other and len(inner[2]) == 2:
+                            trio = [inner[2][0], inner[2][1], outer]
+                            var = [t for t in trio if _depends_on_input(t)]
+                            if len(var) == 1 and var[0] in inner[2]:
+                                x = var[0]
+                                b_in = inner[2][1] if inner[2][0] == x else inner[2][0]
+                                lo_, hi_ = (b_in, outer) if short == "minimum" else (outer, b_in)
+                                return patom(("call", "clip3", (x, lo_, hi_), ()))
                 return patom(("call", fname_j, tuple(xs), ()))
             if short == "astype" and len(args) == 2:
                 return self.cast(args[0], self.canon(args[1]))
@@ -666,6 +739,15 @@ class Normalizer:
             return ("lam", len(names), self.canon(body))
         finally:
             self.lam_depth -= 1
+
+
+def _depends_on_input(t) -> bool:
+    """Does a canonical term mention a parameter other than `self` (i.e. is it a variable rather than a configured bound)?"""
+    if isinstance(t, tuple):
+        if t and t[0] == "p" and len(t) == 2 and isinstance(t[1], str):
+            return t[1] != "self"
+        return any(_depends_on_input(x) for x in t)
+    return False
 
 
 # ----------------------------------------------------------------------------- display
